@@ -66,52 +66,49 @@ def val_coq(v, nobj):
 def hid(h, nobj): return nobj if h == 'Z' else h
 
 
-def snapshot_coq(snap, facts, universe=(0, 1, 2), maxpk=8):
-    """list of (loc, cell) expectations from an implementation snapshot"""
-    out = []
+def olist(hs, nobj): return nlist(sorted(hid(h, nobj) for h in hs))
+
+
+def snapshot_coq(snap, facts):
+    """structured snapshot (Model/C13Check.v `snap`) from an implementation snapshot; returns (term, number of unloaded values skipped)"""
     n = len(snap['objs'])
-    out.append('(LNext, CNat %d)' % n)
-    out.append('(LQueue, CQueue [%s])' % '; '.join('None' if h is None else 'Some %d' % hid(h, n) for h in snap['queue']))
     skipped = 0
+    objs = []
     for h, o in enumerate(snap['objs']):
-        out.append('(LCls %d, CNat %d)' % (h, o['cls']))
-        out.append('(LStatus %d, CStatus %s)' % (h, STATUS[o['status']]))
-        out.append('(LWbits %d, CBits %s)' % (h, 'None' if o['wbits'] is None else '(Some %d%%N)' % o['wbits']))
-        out.append('(LSavePos %d, CPos %s)' % (h, 'None' if o['save_pos'] is None else '(Some %d)' % o['save_pos']))
+        vals = []
         for j, v in sorted(o['vals'].items(), key=lambda p: int(p[0])):
             if v == 'NL': skipped += 1; continue
-            out.append('(LVal %d %d, CVal %s)' % (h, int(j), val_coq(v, n)))
+            vals.append('(%d, %s)' % (int(j), val_coq(v, n)))
+        colls = []
         for j, c in sorted(o['colls'].items(), key=lambda p: int(p[0])):
-            for x in range(n + 1):
-                out.append('(LItem %d %d %d, CBool %s)' % (h, int(j), x, b(x in [hid(y, n) for y in c['items']])))
-                out.append('(LAdded %d %d %d, CBool %s)' % (h, int(j), x, b(x in [hid(y, n) for y in c['added']])))
-                out.append('(LRemoved %d %d %d, CBool %s)' % (h, int(j), x, b(x in [hid(y, n) for y in c['removed']])))
+            colls.append('(%d, (%s, %s, %s))' % (int(j), olist(c['items'], n), olist(c['added'], n), olist(c['removed'], n)))
+        objs.append('mkos %d %s %s %s [%s] [%s]' % (o['cls'], STATUS[o['status']], 'None' if o['wbits'] is None else '(Some %d%%N)' % o['wbits'],
+                                                   'None' if o['save_pos'] is None else '(Some %d)' % o['save_pos'], '; '.join(vals), '; '.join(colls)))
+    queue = '[' + '; '.join('None' if h is None else 'Some %d' % hid(h, n) for h in snap['queue']) + ']'
+    idx = []
     for e, spec, entries in snap['idx']:
-        present = {}
+        ents = []
         for key, h in entries:
-            present[tuple(tuple(k) if isinstance(k, list) else k for k in key)] = h
-        if spec == [0]: cands = [(k,) for k in range(1, maxpk + 1)]
-        else: cands = list(itertools.product(universe, repeat=len(spec)))
-        for key in set(cands) | set(present):
-            h = present.get(key)
-            ks = '[' + '; '.join(val_coq(list(k) if isinstance(k, tuple) else k, n) for k in key) + ']'
-            out.append('(LIdx %d %s %s, CObj %s)' % (e, nlist(spec), ks, 'None' if h is None else '(Some %d)' % hid(h, n)))
-    modset = set()
+            ents.append('([%s], %d)' % ('; '.join(val_coq(k, n) for k in key), hid(h, n)))
+        idx.append('(%d, %s, [%s])' % (e, nlist(spec), '; '.join(ents)))
+    mod = []
     for e, a, hs in snap['mod']:
-        for h in hs: modset.add((e, a, hid(h, n)))
-    for e, ent in enumerate(facts):
-        for a, at in enumerate(ent['attrs']):
-            if at['kind'] != 'set': continue
-            for h in range(n + 1):
-                out.append('(LMod %d %d %d, CBool %s)' % (e, a, h, b((e, a, h) in modset)))
-    return out, skipped
+        for h in hs: mod.append('(%d, %d, %d)' % (e, a, hid(h, n)))
+    return 'mksnap [%s] %s [%s] [%s]' % (';\n    '.join(objs), queue, '; '.join(idx), '; '.join(mod)), skipped
 
 
 def expectation_coq(result, snap, facts):
     err = 'None' if result[0] == 'ok' else '(Some %s)' % ERR.get(result[1], 'EFuel')
     if snap is None: return '(%s, None)' % err, 0
-    locs, skipped = snapshot_coq(snap, facts)
-    return '(%s, Some [%s])' % (err, ';\n   '.join(locs)), skipped
+    term, skipped = snapshot_coq(snap, facts)
+    return '(%s, Some (%s))' % (err, term), skipped
+
+
+def history_coq(name, facts, ops, exps):
+    """Definitions for one history and the Eval that checks it"""
+    return ('Definition sch_%s := %s.\nDefinition ops_%s : list (option (nat * nat) * op) := [%s].\n'
+            'Definition exps_%s : list expectation := [%s].\nEval vm_compute in (check_and_taints sch_%s ops_%s exps_%s).\n' % (
+                name, schema_coq(facts), name, ';\n '.join(op_coq(o) for o in ops), name, ';\n '.join(exps), name, name, name))
 
 
 HEADER = ('From Coq Require Import ZArith NArith List Bool.\nImport ListNotations.\n'
